@@ -4842,3 +4842,95 @@ def ob_fold_step_multi(ctx):
             res.status, res.detail = 'inconclusive', f'vacuous: alternative kept={saw_alt} own insertion chosen={saw_own}'
     res.time = time.time() - t0
     return res
+
+
+# ---------------------------------------------------------------------------------------------------------------------
+# C17 (density clustering only)
+
+def ob_dbscan(ctx, n, min_points):
+    """C17 (DBSCAN): `create_clusters` (real MIR; its hash map / hash set as association lists keyed by point identity) on `n`
+    points with an ARBITRARY neighbourhood relation - one symbolic Bool per ordered pair, a point may or may not be its own
+    neighbour - and the given `min_points`: the returned clusters are pairwise disjoint and without duplicates; the first
+    point of every cluster is a core point (at least `min_points` neighbours); every member is density-reachable from it
+    (a chain of neighbours whose inner links are core points); no core point stays unclustered."""
+    from symex import DynV
+    name = f'dbscan[points={n},min_points={min_points}]'
+    res = Result(name)
+    res.bounds = f'{n} points, neighbourhood relation fully symbolic ({n * n} Booleans, not necessarily symmetric), min_points = {min_points}'
+    t0 = time.time()
+    fn = ctx.prog.find_free('dbscan::create_clusters')
+    N = [[z3.Bool(f'neighbour_{i}_{j}') for j in range(n)] for i in range(n)]
+
+    class Env(drivers.Env):
+        symbolic_maps = True
+
+        def dyn_closure(self, engine, st, tag, args):
+            if tag == 'neighbourhood':
+                from models import IterV
+                p = args[0]
+                i = next(k for k, c in enumerate(self.point_cells) if _cell_of(p) is c)
+                out = []
+                for j in range(n):
+                    if engine.split_bool(st, N[i][j]):
+                        out.append(RefV(self.point_cells[j], 0))
+                return IterV(out)
+            return super().dyn_closure(engine, st, tag, args)
+
+    def _cell_of(v):
+        # points are told apart by their (unique) names: references to them get copied around
+        d = deref_all(v)
+        if isinstance(d, Opaque):
+            return next((c for c in env.point_cells if c.v.name == d.name), None)
+        return None
+
+    env = Env(ctx.prog, ctx.layout, 8)
+    eng = symex.Engine(ctx.prog, ctx.layout, env)
+
+    def body(st):
+        env.assumptions.clear()
+        env.point_cells = [Cell(Opaque(f'point{i}')) for i in range(n)]
+        points = VecV([RefV(c, 0) for c in env.point_cells])
+        out = eng.exec_fn(st, fn, [points, IV(min_points), DynV('neighbourhood')])
+        clusters = []
+        for cl in out.items:
+            clusters.append([next(k for k, c in enumerate(env.point_cells) if _cell_of(x) is c) for x in deref_all(cl).items])
+        return clusters
+
+    paths = eng.explore(body, max_paths=200000)
+    res.paths = len(paths)
+    res.functions |= eng.functions_used
+    for st, out in paths:
+        if out is None:
+            if not no_panic(ctx, res, env, st, what=name):
+                break
+            continue
+        clusters = out
+        core = [z3.Sum([z3.If(N[i][j], 1, 0) for j in range(n)]) >= min_points for i in range(n)]
+        flat = [p for c in clusters for p in c]
+        structural = len(flat) == len(set(flat)) and all(len(c) > 0 for c in clusters)
+        conds = [z3.BoolVal(structural)]
+        for c in clusters:
+            root = c[0]
+            conds.append(core[root])
+            # density reachability from the root within n steps: reach_k[p]
+            reach = [z3.BoolVal(p == root) for p in range(n)]
+            for _ in range(n):
+                reach = [z3.Or(reach[p], *[z3.And(reach[q], core[q], N[q][p]) for q in range(n)]) for p in range(n)]
+            for p in c:
+                conds.append(reach[p])
+        for i in range(n):
+            if i not in flat:
+                conds.append(z3.Not(core[i]))
+        if not decide_claim(ctx, res, env, st, z3.And(*conds), what=f'{name}: clusters {clusters}: disjoint, grown from a core point, members density-reachable, no core point left out'):
+            if res.status == 'violated' and res.model is not None:
+                m = res.model
+                res.case = {'kind': 'dbscan', 'points': n, 'min_points': min_points,
+                            'neighbours': [[j for j in range(n) if z3.is_true(m.eval(N[i][j], model_completion=True))] for i in range(n)]}
+            break
+        if not no_panic(ctx, res, env, st, what=name):
+            break
+        res.witnesses += 1 if clusters else 0
+    if res.status == 'holds' and res.witnesses == 0:
+        res.status, res.detail = 'inconclusive', 'vacuous: no path with a cluster'
+    res.time = time.time() - t0
+    return res
